@@ -16,7 +16,7 @@ SPELL = {
     "version": ["version"], "name": ["name"], "instance_name": ["instance_name"], "submission_url": ["submission_url"],
     "public_key": ["public_key"], "auto_send": ["auto_send"], "auto_delete": ["auto_delete"], "style": ["style"],
     "namespaces": ["namespaces"], "attr_plain": ["attribute::plain_attr"], "attr_ns": ["attribute::exns:nsattr"],
-    "omit_id": ["omit_instanceID"], "instance_xmlns": ["instance_xmlns"], "prefix": ["prefix"], "delimiter": ["delimiter"],
+    "omit_id": ["omit_instanceID"], "attr_id": ["attribute::id"], "attr_version": ["attribute::version"], "instance_xmlns": ["instance_xmlns"], "prefix": ["prefix"], "delimiter": ["delimiter"],
 }
 
 
@@ -29,6 +29,7 @@ def build(case, seed=0):
         "auto_send": rnd.choice(["yes", "true"]), "auto_delete": rnd.choice(["no", "false"]), "style": rnd.choice(["pages", "theme-grid", f"pages cls{tag}"]),
         "namespaces": f'exns="{NS_URI}"', "attr_plain": f"plainval{tag}", "attr_ns": f"nsval{tag}", "omit_id": rnd.choice(["yes", "true", "Yes"]),
         "instance_xmlns": f"http://example.com/inst{tag}", "prefix": f"pfx{tag}", "delimiter": f"dlm{tag}",
+        "attr_id": f"legacyid{tag}", "attr_version": f"legacyver{tag}",
     }
     present = sorted(case["present"])
     rnd.shuffle(present)
